@@ -120,39 +120,96 @@ def check(ctx):
     ok = all(x in s for x in ("b1 = distance.compute_displacements(traj, ix10", "b2 = distance.compute_displacements(traj, ix21", "b3 = distance.compute_displacements(traj, ix32"))
     ctx.decide(ok, "C07-R2", fn, DIH, "_dihedral", "b1,b2,b3 from ix10, ix21, ix32 in that order", "", "the bond vectors are assigned to other index sets")
 
-    # ---- R3
-    for kern in ("angle", "angle_mic", "angle_mic_triclinic"):
+    # ---- R3  (algebraic value numbering of the per-frame loop body; sa/symval.py)
+    from ..symval import SymExec, State, Ptr, Unsupported as CUnsup
+    from ..poly import Poly, Rat
+
+    def frame_body(kern):
         fn = cf.function(GEO, kern)
-        g = C.guards(fn)
-        acos = [n for n in C.walk(fn) if n["kind"] == "CallExpr" and C.callee_name(n) in ("acos", "acosf")]
-        ok = False
-        why = "no acos call"
-        if acos:
-            arg = re.sub(r"\s", "", C.text(C.call_args(acos[0])[0]))
-            # the two clamping ifs precede the call in the same block
-            clamps = [re.sub(r"\s", "", C.text(C.kids(n)[0])) + "->" + ";".join(re.sub(r"\s", "", C.text(x)) for x in _flat(C.kids(n)[1])) + ("|else" if len(C.kids(n)) > 2 else "")
-                      for n in C.walk(fn) if n["kind"] == "IfStmt" and "cosine" in C.text(C.kids(n)[0])]
-            lo = any(c in ("(cosine<(-1.0))->(cosine=(-1.0))", "(cosine<=(-1.0))->(cosine=(-1.0))") for c in clamps)
-            hi = any(c in ("(cosine>1.0)->(cosine=1.0)", "(cosine>=1.0)->(cosine=1.0)") for c in clamps)
-            before = all(C.line(n) < C.line(acos[0]) for n in C.walk(fn) if n["kind"] == "IfStmt" and "cosine" in C.text(C.kids(n)[0]))
-            assigns = [re.sub(r"\s", "", C.text(n)) for n in C.walk(fn) if n["kind"] in ("BinaryOperator", "CompoundAssignOperator") and n.get("opcode", "").endswith("=") and
-                       n.get("opcode") not in ("==", "<=", ">=", "!=") and re.sub(r"\s", "", C.text(C.kids(n)[0])) == "cosine"]
-            ok = lo and hi and before and arg in ("cosine", "(double)cosine") and sorted(assigns) == ["(cosine=(-1.0))", "(cosine=1.0)"]
-            why = "clamps %s, acos argument %s" % (clamps, arg)
-        ctx.decide(ok, "C07-R3", C.line(fn), GEO, kern, "cosine clamped to [-1,1] before acos", "", "the argument of acos is not clamped on every path: %s" % why)
+        loops = [n for n in C.walk(fn) if n["kind"] == "ForStmt"]
+        inner = [l for l in loops if re.sub(r"\s", "", C.text(C.kids(l)[1])) == "(j<n_frames)"]
+        if not inner:
+            raise AnalysisError("%s: frame loop not found" % kern)
+        lb = [x for x in inner[0]["inner"] if isinstance(x, dict) and x.get("kind") == "CompoundStmt"][0]
+        ex = SymExec(cf, GEO)
+        st = State()
+        st.env["j"] = Rat(Poly.const(0))
+        st.env["i"] = Rat(Poly.var("i"))
+        st.env["displacements"] = Ptr("D", 0)
+        st.env["distances"] = Ptr("L", 0)
+        try:
+            return fn, ex, ex.run(C.kids(lb), st)
+        except CUnsup as e:
+            raise AnalysisError("%s: %s" % (kern, e))
+    D = [Rat(Poly.var("D[%d]" % k)) for k in range(9)]
+    L = [Rat(Poly.var("L[%d]" % k)) for k in range(3)]
+
+    def dot(a, b):
+        return a[0] * b[0] + a[1] * b[1] + a[2] * b[2]
+
+    def crs(a, b):
+        return [a[1] * b[2] - a[2] * b[1], a[2] * b[0] - a[0] * b[2], a[0] * b[1] - a[1] * b[0]]
+
+    def opaque_of(ex, v):
+        p_ = v.poly() if v is not None else None
+        if p_ is not None and len(p_.t) == 1:
+            (m, c), = p_.t.items()
+            if c == 1 and len(m) == 1 and m[0][1] == 1:
+                return ex.opaque.get(m[0][0])
+        return None
+    for kern in ("angle", "angle_mic", "angle_mic_triclinic"):
+        fn, ex, outs = frame_body(kern)
+        v1, v2 = D[0:3], D[3:6]
+        want_free = dot(v1, v2) / (L[0] * L[1])
+        got = []
+        for o in outs:
+            val = [v for k_, v in o.env.items() if isinstance(k_, tuple) and k_[0] == "out"]
+            f = opaque_of(ex, val[0]) if len(val) == 1 else None
+            got.append((tuple(p for _, p in o.conds), f))
+        args = sorted([repr(f[1][0]) if f and f[0] == "acos" else "?" for _, f in got])
+        free = [f for conds, f in got if f and f[0] == "acos" and f[1][0].const_value() is None]
+        lo = [f for conds, f in got if f and f[0] == "acos" and f[1][0].const_value() == -1]
+        hi = [f for conds, f in got if f and f[0] == "acos" and f[1][0].const_value() == 1]
+        ok = len(got) == 3 and len(free) == 1 and len(lo) == 1 and len(hi) == 1 and free[0][1][0] == want_free
+        ctx.decide(ok, "C07-R3", C.line(fn), GEO, kern, "angle = acos(clamp(v1.v2 / (|v1||v2|), -1, 1)) on every path", "",
+                   "the per-frame result is acos of %s over the paths %s: the cosine of the two bond vectors is not clamped to [-1, 1] on every path (NaN for collinear atoms) or is not v1.v2/(|v1||v2|)"
+                   % (args, [c for c, _ in got]))
+        # the unclamped path is the one on which both tests failed
+        conds = [c for c, f in got if f and f[0] == "acos" and f[1][0].const_value() is None]
+        ctx.decide(bool(conds) and not any(conds[0]), "C07-R3", C.line(fn), GEO, kern, "the unclamped value is used only when -1 <= cosine <= 1", "", "path conditions of the unclamped result are %s" % conds)
     fn = ctx.py.func(ANG, "_angle")
     ctx.decide("np.arccos(np.clip((u * v).sum(-1), -1.0, 1.0), out=out)" in src(fn), "C07-R3", fn, ANG, "_angle", "reference clips before arccos", "", "reference angle does not clip the cosine")
     for kern in ("dihedral", "dihedral_mic", "dihedral_mic_triclinic"):
-        fn = cf.function(GEO, kern)
-        d = {n.get("name"): re.sub(r"\s", "", C.text(C.kids(n)[-1])) for n in C.walk(fn) if n["kind"] == "VarDecl" and n.get("name") in ("c1", "c2", "p1", "p2") and C.kids(n)}
-        st = [re.sub(r"\s", "", C.text(n)) for n in C.walk(fn) if n["kind"] == "BinaryOperator" and n.get("opcode") == "=" and "atan2" in C.text(n)]
-        ok = d.get("c1") == "cross(v2,v3)" and d.get("c2") == "cross(v1,v2)" and d.get("p1") in ("(dot3(v1,c1)*distances[((3*j)+1)])",) and d.get("p2") == "dot3(c1,c2)" and \
-            bool(st) and st[0].endswith("=atan2f(p1,p2))")
-        ctx.decide(ok, "C07-R3", C.line(fn), GEO, kern, "atan2(|b2| b1.(b2xb3), (b1xb2).(b2xb3))", "", "dihedral formula changed: %s %s" % (d, st[:1]))
+        fn, ex, outs = frame_body(kern)
+        b1, b2, b3 = D[0:3], D[3:6], D[6:9]
+        c1, c2 = crs(b2, b3), crs(b1, b2)
+        want_p1 = dot(b1, c1) * L[1]
+        want_p2 = dot(c1, c2)
+        ok = False
+        why = "%d paths" % len(outs)
+        if len(outs) == 1:
+            val = [v for k_, v in outs[0].env.items() if isinstance(k_, tuple) and k_[0] == "out"]
+            f = opaque_of(ex, val[0]) if len(val) == 1 else None
+            ok = bool(f) and f[0] == "atan2" and f[1][0] == want_p1 and f[1][1] == want_p2
+            why = "result is %s" % (repr(val[0])[:160] if val else None)
+        ctx.decide(ok, "C07-R3", C.line(fn), GEO, kern, "dihedral = atan2(|b2| b1.(b2xb3), (b2xb3).(b1xb2))", "", "the per-frame result is not atan2(|b2| b1.(b2xb3), (b1xb2).(b2xb3)): %s" % why)
+    # numpy reference: same formula by value numbering of the Python source
+    from ..pysym import PySym, Vec as PVec, Unsupported as PUnsup
     fn = ctx.py.func(DIH, "_dihedral")
-    s = re.sub(r"\s", "", src(fn))
-    ok = all(x in s for x in ("c1=np.cross(b2,b3)", "c2=np.cross(b1,b2)", "p1=(b1*c1).sum(-1)", "p1*=(b2*b2).sum(-1)**0.5", "p2=(c1*c2).sum(-1)", "returnnp.arctan2(p1,p2,out)"))
-    ctx.decide(ok, "C07-R3", fn, DIH, "_dihedral", "reference: arctan2(|b2| b1.(b2xb3), (b1xb2).(b2xb3))", "", "reference dihedral formula changed")
+    bs = {"b%d" % (k + 1): PVec([Rat(Poly.var("b%d%s" % (k + 1, a))) for a in "xyz"]) for k in range(3)}
+    stmts = [st_ for st_ in fn.body if isinstance(st_, (ast.Assign, ast.AugAssign)) and dotted(st_.targets[0] if isinstance(st_, ast.Assign) else st_.target) in ("c1", "c2", "p1", "p2")]
+    ret = [st_ for st_ in fn.body if isinstance(st_, ast.Return)]
+    try:
+        ps = PySym(dict(bs)).run(stmts)
+        p1, p2 = ps.env.get("p1"), ps.env.get("p2")
+        B = [[bs["b%d" % (k + 1)][a] for a in range(3)] for k in range(3)]
+        c1, c2 = crs(B[1], B[2]), crs(B[0], B[1])
+        w1 = dot(B[0], c1) * ps.fn("sqrt", dot(B[1], B[1]))
+        w2 = dot(c1, c2)
+        ok = p1 is not None and p2 is not None and ps.equal(p1, w1) and ps.equal(p2, w2) and bool(ret) and re.sub(r"\s", "", src(ret[0].value)) in ("np.arctan2(p1,p2,out)", "np.arctan2(p1,p2,out=out)", "np.arctan2(p1,p2)")
+        ctx.decide(ok, "C07-R3", fn, DIH, "_dihedral", "reference: arctan2(|b2| b1.(b2xb3), (b2xb3).(b1xb2))", "", "reference dihedral evaluates p1 = %r, p2 = %r" % (p1, p2))
+    except PUnsup as e:
+        ctx.undecided("C07-R3", fn, DIH, "_dihedral", "reference dihedral formula", "not evaluable: %s" % e)
 
     # ---- R4
     mod = ctx.py.mod(DIH)
